@@ -92,6 +92,12 @@ CHECKS = {
         note="Observable behaviour = hook journal + results + exceptions + stdout; fault sites are the logger's log/flush calls.",
         ref="DESIGN.md section 4 C03",
     ),
+    "C14": dict(
+        technique="exhaustive exploration of store histories (row permutations, duplications, batch/connection splits, runs on different days through a clock seam) and of set-iteration schedules inside stub building (choice-point seam), plus fresh interpreters with three hash seeds (E2 + E1)",
+        text="For eleven trace families every permutation, duplication and batch/connection/day split of the rows is written through the real SQLiteStore and stubbed through the CLI; inside monkeytype.stubs every set's iteration order is answered by the explorer (every single-point deviation, global reverse/rotate); the same store is stubbed in fresh interpreters with three PYTHONHASHSEED values; all stubs of a family must agree per position with unions compared as sets.",
+        note="Per-process layout is owned through the set seam inside monkeytype.stubs only; the clock of SQLiteStore.add is owned by a seam.",
+        ref="DESIGN.md section 4 C14",
+    ),
 }
 
 NOT_YET = {}
